@@ -23,8 +23,7 @@ FNeg(a)    == NegMod(a, P)
 FMul(a, b) == MulMod(a, b, P)
 FSq(a)     == MulMod(a, a, P)
 FSq2(a)    == FAdd(FSq(a), FSq(a))
-RECURSIVE FPow2k(_, _)
-FPow2k(a, k) == IF k = 0 THEN a ELSE FPow2k(FSq(a), k - 1)
+FPow2k(a, k) == FoldLeft(LAMBDA x, j : FSq(x), a, [j \in 1..k |-> j])
 FInv(a)    == InvMod(a, P)                 \* 0 |-> 0
 FPow(a, e) == PowMod(a, e, P)
 
@@ -37,19 +36,21 @@ FCondNeg(a, c)   == IF c THEN FNeg(a) ELSE a
 BatchInvert(s) == [i \in 1..Len(s) |-> FInv(s[i])]
 
 \* value of a limb vector: limbs[i] * 2^shift[i], limbs as byte strings
-RECURSIVE LimbSum(_, _, _)
-LimbSum(limbs, shifts, i) ==
-  IF i > Len(limbs) THEN Zero(LEN + 12)
-  ELSE BAdd(BShl(limbs[i], shifts[i], LEN + 12), LimbSum(limbs, shifts, i + 1), LEN + 12)
-FromLimbs(limbs, shifts) == BMod(LimbSum(limbs, shifts, 1), P)
+LimbSum(limbs, shifts) ==
+  FoldLeft(LAMBDA acc, i : BAdd(acc, BShl(limbs[i], shifts[i], LEN + 12), LEN + 12),
+           Zero(LEN + 12), [i \in 1..Len(limbs) |-> i])
+FromLimbs(limbs, shifts) == BMod(LimbSum(limbs, shifts), P)
 
 \* ---- constants defined by their equations ---------------------------------
 PM1     == BSub(P, One(LEN), LEN)
-EXP_P58 == BDiv(BSub(P, BN(5, LEN), LEN), BN(8, LEN), LEN)      \* (P-5)/8
-EXP_QR  == BDiv(PM1, BN(2, LEN), LEN)                             \* (P-1)/2
-\* sqrt(-1): 2^((P-1)/4), normalised to the non-negative (even) root
-SQRT_M1 == FAbs(FPow(FN(2), BDiv(PM1, BN(4, LEN), LEN)))
 FMinusOne == FNeg(F1)
+\* the derived constants of Curve.tla, by definition
+ASSUME EXP_P58 = BDiv(BSub(P, BN(5, LEN), LEN), BN(8, LEN), LEN)      \* (P-5)/8
+ASSUME EXP_QR  = BDiv(PM1, BN(2, LEN), LEN)                           \* (P-1)/2
+ASSUME EXP_P38 = BDiv(BAdd(P, BN(3, LEN), LEN), BN(8, LEN), LEN)      \* (P+3)/8
+\* sqrt(-1): 2^((P-1)/4), normalised to the non-negative (even) root
+ASSUME SQRT_M1 = FAbs(FPow(FN(2), BDiv(PM1, BN(4, LEN), LEN)))
+ASSUME D2 = FAdd(D, D)
 
 IsSquare(a) == FIsZero(a) \/ FPow(a, EXP_QR) = F1
 
@@ -74,7 +75,6 @@ SqrtRatioDecl(u, v) ==
 \* The same contract by the textbook route for P = 5 (mod 8): candidate
 \* q^((P+3)/8), fixed up by sqrt(-1).  Used at full size, where CHOOSE over
 \* the field is not available; equal to the declarative form on every toy field.
-EXP_P38 == BDiv(BAdd(P, BN(3, LEN), LEN), BN(8, LEN), LEN)       \* (P+3)/8
 RootOrZero(a) ==                 \* some root of a if a is a square, else F0
   LET c == FPow(a, EXP_P38) IN
   IF FSq(c) = a THEN c
